@@ -306,7 +306,7 @@ class Executor:
     BUILTINS = {"len", "range", "min", "max", "int", "float", "abs", "isinstance", "list", "tuple", "enumerate",
                 "zip", "reversed", "sum", "any", "all", "bool", "str", "print", "getattr", "setattr", "hasattr",
                 "super", "sorted", "dict", "type", "set", "callable", "round", "iter", "next", "id", "map",
-                "ValueError", "AssertionError", "TypeError", "KeyError", "RuntimeError", "IndexError",
+                "slice", "ValueError", "AssertionError", "TypeError", "KeyError", "RuntimeError", "IndexError",
                 "AttributeError", "Exception", "NotImplementedError", "TimeoutError", "StopIteration"}
 
     # ------------------------------------------------------------------ expressions
@@ -520,6 +520,15 @@ class Executor:
             a = self.unwrap_opt(a, st, "comparison")
         if isinstance(b, Opt):
             b = self.unwrap_opt(b, st, "comparison")
+        if isinstance(a, (tuple, list)) and isinstance(b, (tuple, list)) and isinstance(op, (ast.Eq, ast.NotEq)) and \
+                (any(is_sym(x) for x in a) or any(is_sym(x) for x in b)):
+            if len(a) != len(b):
+                r = False
+            else:
+                r = conj([self.compare(ast.Eq(), x, y, st, fr) for x, y in zip(a, b)])
+            if isinstance(op, ast.NotEq):
+                r = (not r) if isinstance(r, bool) else z3.Not(r)
+            return r
         if not is_sym(a) and not is_sym(b):
             if isinstance(a, (Obj, Seq)) or isinstance(b, (Obj, Seq)):
                 raise Undecided("comparison of objects")
@@ -593,6 +602,12 @@ class Executor:
             return b.binop(self, st, op, a, True)
         if isinstance(a, (list, tuple)) and isinstance(b, (list, tuple)) and isinstance(op, ast.Add):
             return a + b
+        if isinstance(a, Seq) and isinstance(b, (list, tuple)) and isinstance(op, ast.Add):
+            out = Seq(a.len, a.arr, a.elem, a.label, a.wrap)        # list concatenation builds a new list
+            for x in b:
+                out.arr = z3.Store(out.arr, z3ify(out.len), z3ify(x))
+                out.len = z3.simplify(z3ify(out.len) + 1)
+            return out
         if isinstance(a, (list, tuple)) and isinstance(b, int) and isinstance(op, ast.Mult):
             return a * b
         if isinstance(a, str) and isinstance(b, str) and isinstance(op, ast.Add):
